@@ -15,6 +15,7 @@ ASSIGN = [
     [None, -1, -0.5, None, 3, -7, 0, None],             # blanks next to negative numbers and zero: a blank counts as 0 on either side of every operator
     [0, 'v1.0', False, '', 0.0, '2.0', 0, 'x.0'],       # falsy values (as OVERRIDES of non-zero cells) and texts that end in .0
     [None, '', 'a', None, '', 0, False, ' '],           # blanks next to the empty text, a text, zero and FALSE
+    [3, 5, 2, 9, 4, 6, 8, 7],                           # numbers supplied as OVERRIDES of cells that are blank in the workbook
 ]
 
 
@@ -118,13 +119,13 @@ def run(tier, seed):
         for k in range(0, len(items), B):
             chunk = items[k:k + B]
             formulas = [spaced(rng, f) if rng.random() < 0.2 else f for f, _, _ in chunk]
-            if ai in (1, 5):       # these assignments come from overrides on top of the first one
-                base = {(c, 0): v for c, v in enumerate(ASSIGN[0])}
-                outs = realcode.eval_formulas(formulas, base, overrides=values, min_rows=2)
+            if ai in (1, 5, 7):       # these assignments come from overrides on top of the first one (7: on top of BLANK cells)
+                base = {(c, 0): v for c, v in enumerate(ASSIGN[0])} if ai != 7 else {}
+                outs = realcode.eval_formulas(formulas, base, overrides=values, min_rows=2, min_fcol=9)
             else:
-                outs = realcode.eval_formulas(formulas, values, min_rows=2)
+                outs = realcode.eval_formulas(formulas, values, min_rows=2, min_fcol=9)
             for (f, toks, _), g in zip(chunk, outs):
-                cases.append(('op %d %s %s' % (len(assign), env, ' '.join(toks)), g, {'formula': f, 'assignment': ai, 'route': 'override' if ai in (1, 5) else 'workbook'}))
+                cases.append(('op %d %s %s' % (len(assign), env, ' '.join(toks)), g, {'formula': f, 'assignment': ai, 'route': 'override' if ai in (1, 5, 7) else 'workbook'}))
                 chk.count('assignment:%d' % ai)
     chk.judge('operators', cases, sample_cap=6)
     # formulas sit in the column after the operands: eval_formulas puts them at column max+2; operands A1..H1 occupy row 1 only
@@ -224,7 +225,15 @@ def literals(chk, tier):
 
 def text_literals(chk):
     """text and boolean literals under & and the comparisons: a literal denotes exactly its text (inner blanks, doubled quotes, wildcards, digits)"""
-    texts = ['a', 'a  b', ' a', 'a ', 'a\tb', 'two\nlines', 'it\'s', 'q"q', '"', '""', '*"', '"*', '?"x"', 'a*"b', 'v1.0', '2.0', '007', '1e3', '', 'TRUE', 'x~*', '*', 'a?c']
+    pct = ['5.6', '1.1', '0.7', '2.7', '33.3', '0.07', '12', '100', '0.125']
+    po = realcode.eval_formulas(['=%s%%' % d for d in pct] + ['=A%d%%' % (i + 1) for i in range(len(pct))] + ['=%s%%=A%d%%' % (d, i + 1) for i, d in enumerate(pct)],
+                                {(0, i): (float(d) if '.' in d else int(d)) for i, d in enumerate(pct)})
+    for i, d in enumerate(pct):
+        chk.count('text-literal')
+        if po[i] != po[len(pct) + i] or po[2 * len(pct) + i] != 'T':
+            chk.violation({'why': 'a percent applied to a numeric literal differs from the percent applied to a cell holding the same number', 'formula': '=%s%%' % d,
+                           'literal': po[i], 'cell': po[len(pct) + i], 'stream': 'text-literals'})
+    texts = ['US$ ', '$', 'a,b ,c', 'a', 'a  b', ' a', 'a ', 'a\tb', 'two\nlines', 'it\'s', 'q"q', '"', '""', '*"', '"*', '?"x"', 'a*"b', 'v1.0', '2.0', '007', '1e3', '', 'TRUE', 'x~*', '*', 'a?c']
     lit = lambda t: '"' + t.replace('"', '""') + '"'
     formulas, wants = [], []
     for t in texts:
